@@ -41,6 +41,14 @@ static void on_alarm(int sig) {
 const char *__ubsan_default_options(void) { return "abort_on_error=1"; }
 static void on_abort(int sig) { (void) sig; fflush(stdout); _exit(98); }
 
+/* The string routines neither document nor may depend on the ambient errno of the application.
+ * Immediately before EVERY library call errno is set to a value that cycles with the operation
+ * counter; the results (compared with the errno-free models and oracles) must not change. */
+static const int g_errs[8] = { 0, ENOMEM, ERANGE, EINTR, ENOENT, EINVAL, EAGAIN, ENOBUFS };
+static unsigned long g_opno = 0;
+static int g_fixed = -1;        /* set by the operation `errno K`: plant g_errs[K] from then on (replays) */
+#define PLANT() (errno = g_errs[g_fixed >= 0 ? (unsigned long) g_fixed : g_opno % 8])
+
 static void put_block(const void *p, size_t n) { puthex(stdout, p, n); }
 
 /* block of exactly cap bytes holding b, a terminator and FILL */
@@ -68,14 +76,21 @@ int main(void) {
         char *w[MAXW]; int nw = split_words(line, w);
         if (nw == 0) continue;
         alarm(10);                      /* per-operation watchdog */
+        g_opno++;
         const char *op = w[0];
+        if (nw == 2 && !strcmp(op, "errno")) {
+            /* a minimised replay carries the errno index its operation ran under */
+            g_fixed = (int) (strtoul(w[1], NULL, 10) % 8);
+            printf("ok\n");
+            continue;
+        }
         if (nw == 2 && (!strcmp(op, "trim") || !strcmp(op, "trimh") || !strcmp(op, "trimt") ||
                         !strcmp(op, "rev") || !strcmp(op, "upper") || !strcmp(op, "lower"))) {
             bytes_t a; if (!unhex(w[1], &a)) { printf("bad-hex\n"); continue; }
             char *s = cstr_exact(&a);
-            char *r = !strcmp(op, "trim") ? qstrtrim(s) : !strcmp(op, "trimh") ? qstrtrim_head(s)
-                    : !strcmp(op, "trimt") ? qstrtrim_tail(s) : !strcmp(op, "rev") ? qstrrev(s)
-                    : !strcmp(op, "upper") ? qstrupper(s) : qstrlower(s);
+            char *r = !strcmp(op, "trim") ? (PLANT(), qstrtrim(s)) : !strcmp(op, "trimh") ? (PLANT(), qstrtrim_head(s))
+                    : !strcmp(op, "trimt") ? (PLANT(), qstrtrim_tail(s)) : !strcmp(op, "rev") ? (PLANT(), qstrrev(s))
+                    : !strcmp(op, "upper") ? (PLANT(), qstrupper(s)) : (PLANT(), qstrlower(s));
             if (r != s) printf("badret ");
             printf("ok "); put_block(s, a.n + 1);
             free(s); free(a.p);
@@ -83,7 +98,7 @@ int main(void) {
             bytes_t a, h, t;
             if (!unhex(w[1], &a) || !unhex(w[2], &h) || !unhex(w[3], &t) || h.n != 1 || t.n != 1) { printf("bad-op\n"); continue; }
             char *s = cstr_exact(&a);
-            char *r = qstrunchar(s, (char) h.p[0], (char) t.p[0]);
+            char *r = (PLANT(), qstrunchar(s, (char) h.p[0], (char) t.p[0]));
             if (r == NULL) printf("null "); else if (r == s) printf("ok "); else printf("badret ");
             put_block(s, a.n + 1);
             free(s); free(a.p); free(h.p); free(t.p);
@@ -94,7 +109,7 @@ int main(void) {
             if (cap < a.n + 1) cap = a.n + 1;
             char *mode = cstr_exact(&m), *src = block_cap(&a, cap), *tok = cstr_exact(&tk), *word = cstr_exact(&wd);
             g_last = -1; g_rec = 1;
-            char *r = qstrreplace(mode, src, tok, word);
+            char *r = (PLANT(), qstrreplace(mode, src, tok, word));
             g_rec = 0;
             if (r == NULL) printf("null"); else { printf("ok "); puthex(stdout, r, strlen(r)); }
             if (g_last >= 0) printf(" alloc %ld", g_last); else printf(" alloc -");
@@ -106,7 +121,7 @@ int main(void) {
             size_t size = strtoul(w[1], NULL, 10);
             char *src = cstr_exact(&a);
             char *dst = fill_block(size);
-            char *r = nw == 3 ? qstrcpy(dst, size, src) : qstrncpy(dst, size, src, strtoul(w[3], NULL, 10));
+            char *r = nw == 3 ? (PLANT(), qstrcpy(dst, size, src)) : (PLANT(), qstrncpy(dst, size, src, strtoul(w[3], NULL, 10)));
             if (r != dst) printf("badret ");
             printf("ok "); put_block(dst, size ? size : 1);
             free(dst); free(src); free(a.p);
@@ -115,7 +130,7 @@ int main(void) {
             if (!unhex(w[1], &a) || !unhex(w[2], &s) || !unhex(w[3], &e)) { printf("bad-op\n"); continue; }
             char *str = cstr_exact(&a), *st = cstr_exact(&s), *en = cstr_exact(&e);
             g_last = -1; g_rec = 1;
-            char *r = qstrdup_between(str, st, en);
+            char *r = (PLANT(), qstrdup_between(str, st, en));
             g_rec = 0;
             /* the new block has exactly the size that was asked of malloc: print all of it */
             if (r == NULL) printf("null"); else { printf("ok "); put_block(r, (size_t) g_last); free(r); }
@@ -126,7 +141,7 @@ int main(void) {
             char *src = cstr_exact(&a);
             char *buf = fill_block(size);
             char *offset = src + off;
-            char *r = qstrgets(buf, size, &offset);
+            char *r = (PLANT(), qstrgets(buf, size, &offset));
             if (r == NULL) { printf("null "); put_block(buf, size); }
             else { if (r != buf) printf("badret "); printf("ok "); put_block(buf, size); printf(" %ld", (long) (offset - src)); }
             free(buf); free(src); free(a.p);
@@ -138,11 +153,11 @@ int main(void) {
             /* two passes: count, then print (the result line starts with the count) */
             size_t n = 0, guard = a.n + 2;
             char *buf = fill_block(size);
-            while (guard-- && qstrgets(buf, size, &offset) != NULL) n++;
+            while (guard-- && (PLANT(), qstrgets(buf, size, &offset)) != NULL) n++;
             printf("ok %zu", n);
             offset = src; guard = a.n + 2;
             memset(buf, FILL, size);
-            while (guard-- && qstrgets(buf, size, &offset) != NULL) {
+            while (guard-- && (PLANT(), qstrgets(buf, size, &offset)) != NULL) {
                 printf(" "); puthex(stdout, buf, strlen(buf)); printf("/%ld", (long) (offset - src));
                 memset(buf, FILL, size);
             }
@@ -154,12 +169,12 @@ int main(void) {
             /* first pass on a scratch copy to count the tokens */
             char *s = cstr_exact(&a);
             int offset = 0; size_t n = 0, guard = a.n + 2; char stop;
-            while (guard-- && qstrtok(s, del, &stop, &offset) != NULL) n++;
+            while (guard-- && (PLANT(), qstrtok(s, del, &stop, &offset)) != NULL) n++;
             free(s);
             printf("ok %zu", n);
             s = cstr_exact(&a); offset = 0; guard = a.n + 2;
             char *t;
-            while (guard-- && (t = qstrtok(s, del, &stop, &offset)) != NULL) {
+            while (guard-- && (t = (PLANT(), qstrtok(s, del, &stop, &offset))) != NULL) {
                 printf(" "); puthex(stdout, t, strlen(t)); printf("/%02x/%d", (unsigned char) stop, offset);
             }
             printf(" buf "); put_block(s, a.n + 1);
@@ -168,7 +183,7 @@ int main(void) {
             bytes_t a, d;
             if (!unhex(w[1], &a) || !unhex(w[2], &d)) { printf("bad-op\n"); continue; }
             char *s = cstr_exact(&a), *del = cstr_exact(&d);
-            qlist_t *l = qstrtokenizer(s, del);
+            qlist_t *l = (PLANT(), qstrtokenizer(s, del));
             printf("ok %zu", l->size(l));
             qlist_obj_t obj; memset(&obj, 0, sizeof(obj));
             while (l->getnext(l, &obj, false)) {
@@ -187,8 +202,8 @@ int main(void) {
             size_t doff = strtoul(w[2], NULL, 10), soff = strtoul(w[3], NULL, 10), size = strtoul(w[4], NULL, 10);
             char *buf = malloc(a.n ? a.n : 1);
             memcpy(buf, a.p, a.n);
-            char *r = nw == 5 ? qstrcpy(buf + doff, size, buf + soff)
-                              : qstrncpy(buf + doff, size, buf + soff, strtoul(w[5], NULL, 10));
+            char *r = nw == 5 ? (PLANT(), qstrcpy(buf + doff, size, buf + soff))
+                              : (PLANT(), qstrncpy(buf + doff, size, buf + soff, strtoul(w[5], NULL, 10)));
             printf("ok "); put_block(buf, a.n); printf(" ret %ld", (long) (r - buf));
             free(buf); free(a.p);
         } else if (nw == 3 && !strcmp(op, "dupfx")) {
@@ -197,7 +212,7 @@ int main(void) {
             if (!unhex(w[1], &fb) || !unhex(w[2], &a)) { printf("bad-op\n"); continue; }
             char *fmt = cstr_exact(&fb), *x = cstr_exact(&a);
             rec_on();
-            char *r = qstrdupf(fmt, x);
+            char *r = (PLANT(), qstrdupf(fmt, x));
             g_rec = 0;
             if (r == NULL) printf("null"); else { printf("ok "); puthex(stdout, r, strlen(r)); }
             put_allocs();
@@ -209,7 +224,7 @@ int main(void) {
             if (cap < dstb.n + 1) cap = dstb.n + 1;
             char *dst = block_cap(&dstb, cap), *fmt = cstr_exact(&fb), *x = cstr_exact(&a);
             rec_on();
-            char *r = qstrcatf(dst, fmt, x);
+            char *r = (PLANT(), qstrcatf(dst, fmt, x));
             g_rec = 0;
             if (r == NULL) printf("null "); else if (r == dst) printf("ok "); else printf("badret ");
             put_block(dst, cap);
@@ -231,7 +246,7 @@ int main(void) {
         } else if (nw == 2 && !strcmp(op, "comma")) {
             long v = strtol(w[1], NULL, 10);
             rec_on();
-            char *r = qstr_comma_number((int) v);
+            char *r = (PLANT(), qstr_comma_number((int) v));
             g_rec = 0;
             /* the block has exactly the recorded size: a write behind it traps under ASan */
             if (r == NULL) printf("null"); else { printf("ok "); puthex(stdout, r, strlen(r)); printf(" alloc %ld", g_last); free(r); }
@@ -239,7 +254,7 @@ int main(void) {
             bytes_t a; if (!unhex(w[1], &a)) { printf("bad-hex\n"); continue; }
             char *s = cstr_exact(&a);
             char *keep = cstr_exact(&a);
-            bool r = op[0] == 'i' ? qstr_is_ip4addr(s) : qstr_is_email(s);
+            bool r = op[0] == 'i' ? (PLANT(), qstr_is_ip4addr(s)) : (PLANT(), qstr_is_email(s));
             printf(r ? "true" : "false");
             if (memcmp(s, keep, a.n + 1) != 0) printf(" modified-argument");
             free(s); free(keep); free(a.p);
@@ -253,7 +268,7 @@ int main(void) {
                 : !strcmp(w[1], "cntrl") ? iscntrl : !strcmp(w[1], "blank") ? isblank : NULL;
             if (fn == NULL) { printf("bad-op\n"); free(a.p); continue; }
             char *s = cstr_exact(&a);
-            printf(qstrtest(fn, s) ? "true" : "false");
+            printf((PLANT(), qstrtest(fn, s)) ? "true" : "false");
             free(s); free(a.p);
         } else if ((nw == 3 || nw == 4) && !strcmp(op, "dupf")) {
             /* dupf s X | dupf d N | dupf ss X Y  — formats "%s", "%d", "%s=%s" */
@@ -261,9 +276,9 @@ int main(void) {
             char *x = NULL, *y = NULL, *r = NULL;
             rec_on();
             g_rec = 0;
-            if (!strcmp(w[1], "s") && nw == 3 && unhex(w[2], &a)) { x = cstr_exact(&a); rec_on(); r = qstrdupf("%s", x); }
-            else if (!strcmp(w[1], "d") && nw == 3) { rec_on(); r = qstrdupf("%d", (int) strtol(w[2], NULL, 10)); }
-            else if (!strcmp(w[1], "ss") && nw == 4 && unhex(w[2], &a) && unhex(w[3], &b)) { x = cstr_exact(&a); y = cstr_exact(&b); rec_on(); r = qstrdupf("%s=%s", x, y); }
+            if (!strcmp(w[1], "s") && nw == 3 && unhex(w[2], &a)) { x = cstr_exact(&a); rec_on(); r = (PLANT(), qstrdupf("%s", x)); }
+            else if (!strcmp(w[1], "d") && nw == 3) { rec_on(); r = (PLANT(), qstrdupf("%d", (int) strtol(w[2], NULL, 10))); }
+            else if (!strcmp(w[1], "ss") && nw == 4 && unhex(w[2], &a) && unhex(w[3], &b)) { x = cstr_exact(&a); y = cstr_exact(&b); rec_on(); r = (PLANT(), qstrdupf("%s=%s", x, y)); }
             else { printf("bad-op\n"); continue; }
             g_rec = 0;
             if (r == NULL) printf("null"); else { printf("ok "); puthex(stdout, r, strlen(r)); }
@@ -276,9 +291,9 @@ int main(void) {
             if (!unhex(w[2], &dstb)) { printf("bad-hex\n"); continue; }
             if (cap < dstb.n + 1) cap = dstb.n + 1;
             char *dst = block_cap(&dstb, cap), *x = NULL, *y = NULL, *r = NULL;
-            if (!strcmp(w[3], "s") && nw == 5 && unhex(w[4], &a)) { x = cstr_exact(&a); rec_on(); r = qstrcatf(dst, "%s", x); }
-            else if (!strcmp(w[3], "d") && nw == 5) { rec_on(); r = qstrcatf(dst, "%d", (int) strtol(w[4], NULL, 10)); }
-            else if (!strcmp(w[3], "ss") && nw == 6 && unhex(w[4], &a) && unhex(w[5], &b)) { x = cstr_exact(&a); y = cstr_exact(&b); rec_on(); r = qstrcatf(dst, "%s=%s", x, y); }
+            if (!strcmp(w[3], "s") && nw == 5 && unhex(w[4], &a)) { x = cstr_exact(&a); rec_on(); r = (PLANT(), qstrcatf(dst, "%s", x)); }
+            else if (!strcmp(w[3], "d") && nw == 5) { rec_on(); r = (PLANT(), qstrcatf(dst, "%d", (int) strtol(w[4], NULL, 10))); }
+            else if (!strcmp(w[3], "ss") && nw == 6 && unhex(w[4], &a) && unhex(w[5], &b)) { x = cstr_exact(&a); y = cstr_exact(&b); rec_on(); r = (PLANT(), qstrcatf(dst, "%s=%s", x, y)); }
             else { printf("bad-op\n"); free(dst); free(dstb.p); continue; }
             g_rec = 0;
             if (r == NULL) printf("null "); else if (r == dst) printf("ok "); else printf("badret ");
@@ -289,7 +304,7 @@ int main(void) {
             /* only the deterministic part: length and alphabet of the result */
             bytes_t a; if (!unhex(w[1], &a)) { printf("bad-hex\n"); continue; }
             char *seed = cstr_exact(&a);
-            char *r = qstrunique(a.n ? seed : NULL);
+            char *r = (PLANT(), qstrunique(a.n ? seed : NULL));
             size_t n = strlen(r), bad = 0;
             for (size_t i = 0; i < n; i++) if (!((r[i] >= '0' && r[i] <= '9') || (r[i] >= 'a' && r[i] <= 'f'))) bad++;
             printf("ok %zu %zu", n, bad);
